@@ -3,11 +3,19 @@ import ColoVerif.Model.LegacyIspd
 import ColoVerif.Model.BindingRules
 import ColoVerif.Gen.Bindings
 import ColoVerif.Proofs.Ispd
+import ColoVerif.Model.IspdText
+import ColoVerif.Proofs.IspdText
+import ColoVerif.Proofs.IspdTextAux
 /-
 C20 — file export and Python layer are faithful to the circuit.
 
 * `Ispd.write` is `Circuit::exportIspd` (src/export.cpp), `Ispd.read` is `Circuit.read_ispd`
   (pycoloquinte/coloquinte.py); both are tied to the code by the two halves of `harness/h_C20.cpp`.
+* `Ispd.Text.writeText` is the exact *text* of the four data files (and `auxText` of the `.aux` file) that
+  export.cpp emits, `Ispd.Text.readText` is coloquinte.py's line-by-line tokenisation and parsing, `Ispd.Text.readIspd`
+  adds `_read_aux`/`_open_file` on a file system, `writePlacementText`/`loadPlacement` are `write_placement`/
+  `load_placement`; tied by whole-file text comparison and by the reader run on exported, record-mutated and
+  text-mutated files (harness/h_C20.cpp + harness/c20_reader.py).
 * `Gen.Bindings` is regenerated from pycoloquinte/module.cpp and src/coloquinte.hpp on every run.
 -/
 namespace ColoVerif.C20
@@ -68,6 +76,104 @@ theorem precision_bound_needed :
     (read (write ⟨[⟨1, 1, 0, 0, .N, false, true, .ANY⟩], [⟨1, 0, [⟨0, 100001, 0⟩]⟩], [⟨⟨0, 10, 0, 1⟩, .N⟩]⟩)).toOption.map
       (fun c' => c'.nets.map (fun n => n.pins.map (·.xo))) = some [[100000]] := by
   decide +kernel
+
+/-! ### Text level -/
+
+open ColoVerif.Ispd.Text in
+/-- Full statement: the text-level reader on the exported text is the record-level reader on the exported
+records, for every circuit.  What is missing in `text_refines_records_partial`: pin offsets whose printed form
+needs rounding to six digits or scientific notation (`fmtG6` beyond `|2·offset − size| < 2·10^5`), where
+`float()` of the printed text is tied to `fmt6` only by the `big` correspondence stream. -/
+def text_refines_records_full_statement : Prop :=
+  ∀ c : Circuit, readText (writeText c) = read (write c)
+
+open ColoVerif.Ispd.Text in
+/-- **Text level refines record level.**  For every circuit whose pin offsets print with at most six
+significant digits (no other hypothesis: any orientation, any rows, pins on missing cells, empty nets …),
+coloquinte.py's tokenisation and number parsing, run on the exact text export.cpp writes, gives what
+`Ispd.read` gives on the records `Ispd.write` — the same circuit or the same Python exception. -/
+theorem text_refines_records_partial (c : Circuit) (h : printable c = true) :
+    readText (writeText c) = read (write c) := readText_write c h
+
+open ColoVerif.Ispd.Text in
+/-- **Round trip at text level.**  On the format's domain, reading the exported *text* back succeeds and
+reproduces cell sizes, fixed flags, positions, orientations, connectivity, pin offsets, row rectangles and
+row orientations. -/
+theorem roundtrip_text (c : Circuit) (h : inDomain c = true) :
+    ∃ c', readText (writeText c) = .ok c' ∧ Agree c c' := by
+  rw [readText_write c (printable_of_inDomain c h)]
+  exact roundtrip c h
+
+open ColoVerif.Ispd.Text in
+/-- … and the same wirelength. -/
+theorem roundtrip_text_hpwl (c : Circuit) (h : inDomain c = true) :
+    ∃ c', readText (writeText c) = .ok c' ∧ c'.hpwl = c.hpwl := by
+  obtain ⟨c', hr, ha⟩ := roundtrip_text c h
+  exact ⟨c', hr, hpwl_agree ha⟩
+
+open ColoVerif.Ispd.Text in
+/-- **Round trip through the files.**  `read_ispd("<pre>.aux")` — and `read_ispd("<pre>")`, which appends
+`.aux` — on the five files that `exportIspd("<pre>")` leaves behind selects the four data files through the
+`.aux` file and reproduces the circuit, for every prefix without white space that is absolute or has no
+directory part. -/
+theorem roundtrip_files (pre : Line) (c : Circuit) (hp : goodPrefix pre = true) (h : inDomain c = true) :
+    (∃ c', readIspd (exportFS pre c) .exists_ (pre ++ ".aux".toList) = .ok c' ∧ Agree c c') ∧
+    (∃ c', readIspd (exportFS pre c) .missing pre = .ok c' ∧ Agree c c') := by
+  rw [readIspd_exportFS pre c hp, readIspd_exportFS_missing pre c hp]
+  exact ⟨roundtrip_text c h, roundtrip_text c h⟩
+
+open ColoVerif.Ispd.Text in
+/-- The condition on the prefix is needed: `exportIspd("out/d")` writes `out/d.nodes …` into `out/d.aux`, and
+the reader joins these names to the directory of the `.aux` file once more (`out/out/d.nodes`):
+`RuntimeError("Could not find file …")`. -/
+theorem relative_prefix_with_directory_lost :
+    readIspd (exportFS "out/d".toList Legacy.witnessRows) .exists_ "out/d.aux".toList = .error .runtime ∧
+    inDomain Legacy.witnessRows = true := by
+  decide +kernel
+
+open ColoVerif.Ispd.Text in
+/-- **Number formatting.**  What `operator<<` prints for an `int` is read back by `int()`; what it prints at
+the default precision for the half-integer `k/2` is read back exactly by `float()` as long as
+`|k| < 2·10^5` (six significant digits). -/
+theorem number_format_exact :
+    (∀ i : Int, pyInt (showInt i) = .ok i) ∧
+    (∀ k : Int, k.natAbs < 200000 → pyFloat (fmtG6 k) = .ok ((k : Rat) / 2)) := by
+  refine ⟨pyInt_showInt, fun k hk => ?_⟩
+  rw [pyFloat_fmtG6 k hk, fmt6, if_pos hk]
+
+open ColoVerif.Ispd.Text in
+/-- **`load_placement(write_placement(c))`.**  With pairwise distinct cell names that are single tokens not
+starting with `#`, and proper orientations, loading the placement file written from `c` into any circuit `c0`
+with the same number of cells succeeds and gives every cell the position and orientation it has in `c`;
+sizes, flags, nets and rows of `c0` are untouched (`/FIXED` markers are written for fixed cells and ignored
+on reading). -/
+theorem load_write_placement (nm : List String) (c c0 : Circuit) (hnd : nm.Nodup)
+    (hok : ∀ s ∈ nm, nameOk s.toList) (hlen : nm.length = c.cells.length) (hlen0 : c0.cells.length = c.cells.length)
+    (hc : c.cells.all (fun cl => isProper cl.orient) = true) :
+    ∃ c', loadPlacement nm (writePlacementText (nm.map String.toList) c) c0 = .ok c' ∧
+      c'.cells.map (fun cl => (cl.x, cl.y, cl.orient)) = c.cells.map (fun cl => (cl.x, cl.y, cl.orient)) ∧
+      c'.cells.map (fun cl => (cl.w, cl.h, cl.fixed, cl.obstruction, cl.pol)) =
+        c0.cells.map (fun cl => (cl.w, cl.h, cl.fixed, cl.obstruction, cl.pol)) ∧
+      c'.nets = c0.nets ∧ c'.rows = c0.rows := by
+  refine ⟨_, loadPlacement_writePlacement nm c c0 hnd hok hlen hlen0 hc, ?_, ?_, rfl, rfl⟩
+  · exact (setPlacement_maps c0.cells c.cells hlen0).1
+  · exact (setPlacement_maps c0.cells c.cells hlen0).2
+
+/-- non-vacuity: the text-level hypotheses hold for the names export.cpp gives (`o0`, `o1`), for an absolute
+prefix and for a bare one; a circuit with a seven-digit offset is outside `printable` -/
+example : Ispd.Text.printable Legacy.witnessPins = true ∧ Ispd.Text.goodPrefix "/tmp/x/d".toList = true ∧
+    Ispd.Text.goodPrefix "d".toList = true ∧ Ispd.Text.goodPrefix "out/d".toList = false := by decide
+example : [cellName 0, cellName 1].Nodup ∧ ∀ s ∈ [cellName 0, cellName 1], Ispd.Text.nameOk s.toList := by
+  refine ⟨by decide, ?_⟩
+  intro s hs
+  simp only [List.mem_cons, List.not_mem_nil, or_false] at hs
+  rcases hs with rfl | rfl
+  · exact ⟨Ispd.Text.free_of_all (by decide), 'o', ['0'], by decide, by decide⟩
+  · exact ⟨Ispd.Text.free_of_all (by decide), 'o', ['1'], by decide, by decide⟩
+example : Ispd.Text.loadPlacement [cellName 0, cellName 1]
+      (Ispd.Text.writePlacementText [Ispd.Text.cellTok 0, Ispd.Text.cellTok 1] Legacy.witnessPins)
+      { Legacy.witnessPins with cells := Legacy.witnessPins.cells.map fun cl => { cl with x := 9, orient := .FW } }
+    = .ok Legacy.witnessPins := by decide +kernel
 
 /-! ### Bindings -/
 
